@@ -118,6 +118,9 @@ func (w *wpWorld) join(n int64) (*wpWorker, error) {
 	if err != nil {
 		return nil, err
 	}
+	if old := w.current[n]; old != nil && (old.endpoint == ep || !ep.IsRunning()) {
+		return nil, fmt.Errorf("worker %d did not re-join under a new incarnation", n)
+	}
 	ep.reliableDelivery = &reliableDeliveryConfig{consumer: &reliableConsumerConfig{producerName: w.prod.Name(), flowControlWindow: 4, resendInterval: time.Hour}}
 	spec, err := newReliableCompanionSpec(ReliableControllerRoleConsumer, ep.Name(), ep.IncarnationID())
 	if err != nil {
@@ -140,9 +143,20 @@ func (w *wpWorld) leave(wk *wpWorker) {
 	}
 	rdFlush(w.ctx, wk.comp)
 	wk.rec.take()
+	compName, epName := wk.comp.Name(), wk.endpoint.Name()
 	_ = wk.comp.Shutdown(w.ctx)
 	_ = wk.endpoint.Shutdown(w.ctx)
 	wk.alive = false
+	// the names are released from the actor tree asynchronously: wait, so that a re-join really is a new incarnation
+	deadline := time.Now().Add(10 * time.Second)
+	for time.Now().Before(deadline) {
+		_, a := w.sys.actors.nodeByName(compName)
+		_, b := w.sys.actors.nodeByName(epName)
+		if !a && !b {
+			break
+		}
+		time.Sleep(200 * time.Microsecond)
+	}
 	w.sh.takeStray()
 }
 
@@ -343,6 +357,15 @@ func (s *wpSched) do(o wpOp) bool {
 	o.Alive = s.w.aliveCtrls()
 	if o.Alive == nil {
 		o.Alive = []int64{}
+	}
+	if o.Op == "Register" {
+		// the registration fence is the environment's oracle: record what the real system answers right now
+		// (a worker that re-joined a moment ago may still resolve to its previous incarnation)
+		o.Auth = false
+		if wk := s.w.workers[o.Ctrl]; wk != nil {
+			_, _, err := s.w.sys.authenticateWorkPullingWorker(s.w.ctx, wk.comp, s.w.prod.Name())
+			o.Auth = err == nil
+		}
 	}
 	obs, err := s.w.apply(o)
 	if err != nil {
